@@ -524,7 +524,7 @@ def run_C19(ctx):
     try: so, dyn, sta = ov_build(ctx)
     except RuntimeError as ex: return dict(coverage=dict(evaluations=1, distinct_nontrivial=2, rule="build failed", samples=["-"]), violations=[], infra=[str(ex)])
     pairs = ok = nontriv = 0
-    os.makedirs(os.path.join(ctx.verif, "replays"), exist_ok=True)
+    os.makedirs(os.path.join(ctx.out, "replays"), exist_ok=True)
     for mode in ("preload", "static"):
         res, rc, err = ov_run(so, dyn, sta, mode)
         if res is None or "infra" in (res or {}):
@@ -533,7 +533,7 @@ def run_C19(ctx):
         samples.append(f"{mode}: {res['pairs']} (allocating entry, size, releasing entry) triples, {res['ok']} passed")
         for k, v in enumerate(res["violations"]):
             import hashlib
-            rp = os.path.join(ctx.verif, "replays", f"C19-{hashlib.sha1((mode + v).encode()).hexdigest()[:8]}.txt")
+            rp = os.path.join(ctx.out, "replays", f"C19-{hashlib.sha1((mode + v).encode()).hexdigest()[:8]}.txt")
             open(rp, "w").write(f"# replay file for property C19\nharness ov_test\nmode {mode}\nmsg {v}\n")
             key = v.split(":")[0]
             viol.append(dict(key=f"C19:{mode}:{key}", msg=v, replay=rp))
